@@ -106,4 +106,35 @@ theorem result_is_concat_over_libs (env : Str → Flag → Proc) (libs : List St
   rw [hr, (merge_is_concat_in_call_order [] cfgs (by simp [NodupKeys]) k).1]
   simp [vals]
 
+/-- **The model is the Python source.**  `Generated/PkgConfigPy.lean` is
+re-translated from src/cffi/pkgconfig.py on every run (translate/c35_py.py): the
+six getters with their prefix tests and `x[2:]`, `_macro`, the dict literal of
+`kwargs` (which getter on which output feeds which keyword, in which order) and
+the loop body of `merge_flags`.  The model's functions, about which the theorems
+above speak, are equal to those translations. -/
+theorem model_is_the_translated_source :
+    (∀ tc tl : List Str,
+      includeDirs tc = Generated.PkgConfigPy.kw_include_dirs tc tl ∧
+      libraryDirs tl = Generated.PkgConfigPy.kw_library_dirs tc tl ∧
+      libraries tl = Generated.PkgConfigPy.kw_libraries tc tl ∧
+      macros tc = Generated.PkgConfigPy.kw_define_macros tc tl ∧
+      otherCflags tc = Generated.PkgConfigPy.kw_extra_compile_args tc tl ∧
+      otherLibs tl = Generated.PkgConfigPy.kw_extra_link_args tc tl) ∧
+    (∀ x, macroOf x = Generated.PkgConfigPy.macro_ x) ∧
+    (∀ (cfg : Cfg KeyName Item) k v, mergeKey cfg k v = Generated.PkgConfigPy.merge_step cfg k v) ∧
+    (∀ cf lb, (kwargsOf cf lb).map (fun kv => kv.1.name) = Generated.PkgConfigPy.kwargs_keys) := by
+  refine ⟨?_, macroOf_eq_macro_, fun cfg k v => mergeKey_eq_merge_step cfg k v, fun _ _ => rfl⟩
+  intro tc tl
+  have hm : (fun x => Generated.PkgConfigPy.macro_ x) = macroOf := by
+    funext x; exact (macroOf_eq_macro_ x).symm
+  simp only [includeDirs, libraryDirs, libraries, macros, otherCflags, otherLibs, isI, isD, isL, isl,
+    Generated.PkgConfigPy.kw_include_dirs, Generated.PkgConfigPy.kw_library_dirs,
+    Generated.PkgConfigPy.kw_libraries, Generated.PkgConfigPy.kw_define_macros,
+    Generated.PkgConfigPy.kw_extra_compile_args, Generated.PkgConfigPy.kw_extra_link_args,
+    Generated.PkgConfigPy.get_include_dirs, Generated.PkgConfigPy.get_library_dirs,
+    Generated.PkgConfigPy.get_libraries, Generated.PkgConfigPy.get_macros,
+    Generated.PkgConfigPy.get_other_cflags, Generated.PkgConfigPy.get_other_libs,
+    startsWith_eq_starts2, hm, List.map_id', and_self]
+  trivial
+
 end CffiVerif.C35
